@@ -120,8 +120,10 @@ def gen_queries(rng, pairs, tier):
             qs.append(["path"])
         elif r < 0.84:
             qs.append(["tags"])
-        elif r < 0.90:
+        elif r < 0.885:
             qs.append(["write"])
+        elif r < 0.90:
+            qs.append(["write_nodir", ""])        # refused (no directory): a failing query like any other
         elif r < 0.94:
             qs.append(["merge_base"])
         elif r < 0.98:
@@ -153,6 +155,8 @@ def q_exec(q):
         return [{"op": "merge", "o": 5, "usr": 0, "etc": 1}, {"op": "dump", "k": 5, "ext": False}, {"op": "free", "k": 5}]
     if o == "write_fail":
         return [{"op": "write", "k": 0, "dir": "$ROOT/out", "name": "adir"}]
+    if o == "write_nodir":
+        return [{"op": "write", "k": 0, "dir": q[1], "name": "nodir.conf"}]
     if o == "merge_self":
         return [{"op": "merge", "o": 5, "usr": 0, "etc": 0}, {"op": "dump", "k": 5, "ext": False}, {"op": "free", "k": 5}]
     if o == "merge_over":
